@@ -12,6 +12,8 @@ import (
 
 // VC is one proof obligation ready for the solvers.
 type VC struct {
+	InvOf string   // an invariant obligation: "-" (ungrouped) or the group of the invariant
+	Uses  []string // a postcondition: the invariant groups it switches on
 	Local bool // a postcondition that callers do not get as a premise (its failure does not make their proofs conditional)
 	Name    string
 	Prop    string
@@ -297,6 +299,7 @@ func (w *World) functionVCsT(fn *ssa.Function, prop string, prove map[string]boo
 				pvc := w.mkVC(g, fmt.Sprintf("%s.post[%s]/%s", key, tagLabel(cl, prove, prop), clauseLabel(cl, cl.ord)), prop, "post", key, cl.src,
 					append(g.groupLines(cl.using, false), "(assert "+returned+")", "(assert (not "+t.t+"))"), w.pos(fn.Pos()), e.replaySpec())
 				pvc.Local = len(cl.using) > 0 // not handed to callers as a premise
+				pvc.Uses = cl.using
 				if cl.expr.op == "binary" && cl.expr.name == "==>" && len(e.rets) > 1 {
 					env.skNext = 0
 					saved := env.instAt
@@ -321,8 +324,10 @@ func (w *World) functionVCsT(fn *ssa.Function, prop string, prove map[string]boo
 					if kind != "pre" && kind != "inv" {
 						kind = "safe." + kind
 					}
-					vcs = append(vcs, w.mkVC(g, ob.Name, prop, kind, key, "",
-						append(g.groupLines(ob.Groups, false), "(assert "+ob.Cond+")", "(assert (not "+ob.Goal+"))"), w.pos(ob.Pos), e.replaySpec()))
+					ovc := w.mkVC(g, ob.Name, prop, kind, key, "",
+						append(g.groupLines(ob.Groups, false), "(assert "+ob.Cond+")", "(assert (not "+ob.Goal+"))"), w.pos(ob.Pos), e.replaySpec())
+					ovc.InvOf = ob.InvOf
+					vcs = append(vcs, ovc)
 				}
 			}
 			if safe {
